@@ -83,6 +83,15 @@ def gen_steady(rng) -> dict:
     return {"template": t, "rxns": rxns, "pools": pools, "lv": lv, "maps": maps}
 
 
+# minimised witness of the repaired direction defect (fixes/C16-map-direction.diff): runs first on every run
+REGRESSION_NETS = [
+    {"template": "regression-3cycle", "rxns": [("v40", [], ["c1"], 1), ("v41", ["c1"], ["c2"], 1), ("v42", ["c2"], [], 1)],
+     "pools": {"c1": 1, "c2": 1}, "lv": {"c1": 3, "c2": 3}, "maps": {"v40": [0, 1, 2], "v41": [1, 2, 0], "v42": [0, 1, 2]},
+     "dists": [{"c1__000": 0, "c1__001": 0, "c1__010": 0, "c1__011": 0, "c1__100": 1, "c1__101": 0, "c1__110": 0, "c1__111": 0,
+                "c2__000": 1, "c2__001": 0, "c2__010": 0, "c2__011": 0, "c2__100": 0, "c2__101": 0, "c2__110": 0, "c2__111": 0}]},
+]
+
+
 def steady_models(net: dict, ext):
     """Build the base model (dyadic rate constants so that flux = k * prod(pools)), both label models."""
     import pandas as pd
@@ -314,14 +323,14 @@ def check(run: Run) -> None:
     cases: list[dict] = []
 
     # (a) oracle on steady-state networks
-    nets = []
+    nets = [dict(n) for n in REGRESSION_NETS]
     for f in known.values():
         if "net" in f.get("witness", {}):
             nets.append(net_from_json(f["witness"]["net"]))
     for _ in range(1200 if thorough else 160):
         nets.append(gen_steady(rng))
     for net in nets:
-        dists = [gen_distribution(rng, net) for _ in range(3)]
+        dists = list(net.get("dists", [])) + [gen_distribution(rng, net) for _ in range(3)]
         dist["templates"][net.get("template", "?")] = dist["templates"].get(net.get("template", "?"), 0) + 1
         inv = all(is_involution(m) for m in net["maps"].values())
         dist["involutive_only" if inv else "with_noninvolutive_map"] += 1
